@@ -151,6 +151,8 @@ class CallMixin(object):
         return self.call_builtin(st, cx, callee.name, args, kwargs, node)
       if k == 'method':
         return self.call_method(st, cx, callee.recv, callee.name, args, kwargs, node)
+      if k == 'dictlike':
+        return self.dl_method(st, cx, callee.recv, callee.name, args, node)
       if k == 'pred':
         return iter([(st, self.call_pred(st, cx, callee.name, args, node))])
       if k == 'specbuiltin':
